@@ -222,7 +222,7 @@ def finish(prop, P, tier, seed, t0, results, fatal, touched, findings):
             write_json(rp, {"property": prop, "obligation": r["obligation"], "clause": it["clause"],
                             "backend": r["backend"], "input": it["input"], "detail": it["detail"],
                             "case": it.get("case"), "test": r.get("test"), "pkg": r.get("pkg"),
-                            "playback": it.get("playback"), "function": r.get("function"),
+                            "playback": it.get("playback"), "function": r.get("function"), "tier": tier, "seed": seed,
                             "replay_cmd": f"bin/check {prop} --replay {rp}"})
             entry = {"obligation": r["obligation"], "clause": it["clause"], "replay": rp, "input": it["input"],
                      "detail": it["detail"], "backend": r["backend"],
@@ -309,7 +309,11 @@ def replay(prop, path):
         inject(s, log)
         if rp["backend"] == "native":
             exe = run_native.build(s, rp["pkg"], log)
-            r = run_native.run_obligation(s, exe, rp["test"], "thorough", 1, 600, log, replay=rp.get("case") or [])
+            # the choice vector is relative to the tier and the seed of the run that found it (slices, tiered scopes)
+            os.environ["VERIF_SEED"] = str(rp.get("seed", 0) or 0)
+            if any(o.get("bins") for o in registry.OBLIGATIONS if o.get("test") == rp["test"]):
+                run_native.build_bins(s, log)
+            r = run_native.run_obligation(s, exe, rp["test"], rp.get("tier") or "quick", 1, 600, log, replay=rp.get("case") or [])
             fails = r.get("failures", [])
             if r.get("crashed") or r.get("timed_out"):
                 print("REPLAY: process crashed / did not terminate on the real code:", r.get("output", "")[-400:])
